@@ -247,63 +247,74 @@ func c23ModelApply(m *c23Model, e c23Event) []string {
 	return nil
 }
 
-func TestMC_C23(t *testing.T) {
+func TestMC_C23(t *testing.T) { c23Main(t) }
+
+// TestMCRace_C23 is the separate free-running pass (go test -race) over the
+// bodies of the concurrent scenarios.
+func TestMCRace_C23(t *testing.T) {
+	c23Main(t)
+	verifmc.RacePassDone("C23")
+}
+
+func c23Main(t *testing.T) {
 	c := verifmc.Start(t, "C23", "model_checking")
 	defer c.Finish()
 	c.SetRule("BFS over all sequences of {queue(x), store(x) for 4 bodies of 3 payloads (one payload in two differently signed bodies), retrieve(0|1|2|255), remove({p1}|{p2}|{p1,p2,p3})} on the real cache DB; after every call the returned list and the bodies (CacheGetTransaction) are compared with a token model (body map, queued flag, ordered queue tokens); plus concurrent scenarios explored over all interleavings up to the preemption bound and checked for linearisability")
 	c.Assume("queue order = call order (vtime shim makes time.Now strictly increasing); Badger SSI; TTL expiry (2 h) is outside the explored time")
-	b := &verifmc.BFS[*c23State]{
-		C: c, NumEvents: len(c23Events), MaxDepth: verifmc.Pick(c, 5, 6),
-		EventName: func(e int) string { return c23Events[e].name },
-		New:       func(int) *c23State { return &c23State{st: c23Open(), m: &c23Model{}} },
-		Close:     func(s *c23State) { _ = s.st.cacheDB.Close() },
-		Key:       func(s *c23State) string { return s.m.key() },
-		Apply: func(s *c23State, ei int, replaying bool, report func(key, desc string)) bool {
-			e := c23Events[ei]
-			before := s.m.key()
-			want := c23ModelApply(s.m, e)
-			got, errs := c23Exec(s.st, e)
-			if replaying {
-				return true
-			}
-			if errs != "" {
-				report("sequential:error:"+e.kind, fmt.Sprintf("%s failed: %s (state %s)", e.name, errs, before))
-				return true
-			}
-			if e.kind == "retrieve" {
-				if len(got) > e.limit {
-					report("retrieve:over-limit", fmt.Sprintf("%s returned %d transactions", e.name, len(got)))
+	if !verifmc.FreeRunning() {
+		b := &verifmc.BFS[*c23State]{
+			C: c, NumEvents: len(c23Events), MaxDepth: verifmc.Pick(c, 5, 6),
+			EventName: func(e int) string { return c23Events[e].name },
+			New:       func(int) *c23State { return &c23State{st: c23Open(), m: &c23Model{}} },
+			Close:     func(s *c23State) { _ = s.st.cacheDB.Close() },
+			Key:       func(s *c23State) string { return s.m.key() },
+			Apply: func(s *c23State, ei int, replaying bool, report func(key, desc string)) bool {
+				e := c23Events[ei]
+				before := s.m.key()
+				want := c23ModelApply(s.m, e)
+				got, errs := c23Exec(s.st, e)
+				if replaying {
+					return true
 				}
-				seen := map[string]bool{}
-				for _, g := range got {
-					if seen[g[:2]] {
-						report("retrieve:duplicate", fmt.Sprintf("%s returned payload %s twice: %v", e.name, g[:2], got))
-					}
-					seen[g[:2]] = true
+				if errs != "" {
+					report("sequential:error:"+e.kind, fmt.Sprintf("%s failed: %s (state %s)", e.name, errs, before))
+					return true
 				}
-				if strings.Join(got, ",") != strings.Join(want, ",") {
-					key := "retrieve:differs"
-					// classify: returned something that was never queued / already consumed
-					ws := map[string]bool{}
-					for _, w := range want {
-						ws[w] = true
+				if e.kind == "retrieve" {
+					if len(got) > e.limit {
+						report("retrieve:over-limit", fmt.Sprintf("%s returned %d transactions", e.name, len(got)))
 					}
+					seen := map[string]bool{}
 					for _, g := range got {
-						if !ws[g] {
-							key = "retrieve:not-eligible"
+						if seen[g[:2]] {
+							report("retrieve:duplicate", fmt.Sprintf("%s returned payload %s twice: %v", e.name, g[:2], got))
 						}
+						seen[g[:2]] = true
 					}
-					report(key, fmt.Sprintf("%s in state [%s] returned %v, the contract gives %v", e.name, before, got, want))
+					if strings.Join(got, ",") != strings.Join(want, ",") {
+						key := "retrieve:differs"
+						// classify: returned something that was never queued / already consumed
+						ws := map[string]bool{}
+						for _, w := range want {
+							ws[w] = true
+						}
+						for _, g := range got {
+							if !ws[g] {
+								key = "retrieve:not-eligible"
+							}
+						}
+						report(key, fmt.Sprintf("%s in state [%s] returned %v, the contract gives %v", e.name, before, got, want))
+					}
 				}
-			}
-			if obs := c23Observe(s.st); obs != s.m.body {
-				report("body:"+e.kind, fmt.Sprintf("after %s from [%s]: stored bodies %v, contract %v", e.name, before, obs, s.m.body))
-			}
-			return true
-		},
+				if obs := c23Observe(s.st); obs != s.m.body {
+					report("body:"+e.kind, fmt.Sprintf("after %s from [%s]: stored bodies %v, contract %v", e.name, before, obs, s.m.body))
+				}
+				return true
+			},
+		}
+		st, tr, _, _ := b.Run()
+		c.Require(st > 200 && tr > 2000, "vacuous sequential exploration %d/%d", st, tr)
 	}
-	st, tr, _, _ := b.Run()
-	c.Require(st > 200 && tr > 2000, "vacuous sequential exploration %d/%d", st, tr)
 
 	// ---- concurrent callers ----
 	badger.VerifHook = func(kind, dir string, writes int) error {
@@ -454,5 +465,5 @@ func TestMC_C23(t *testing.T) {
 	c.Set("concurrent_scenarios", len(scen))
 	c.Set("concurrent_executions", execs)
 	c.Set("preemption_bound", bound)
-	c.Require(contended >= 4 || c.Violations() > 0, "only %d of %d concurrent scenarios produced several outcomes", contended, len(scen))
+	c.Require(verifmc.FreeRunning() || contended >= 4 || c.Violations() > 0, "only %d of %d concurrent scenarios produced several outcomes", contended, len(scen))
 }
